@@ -2,9 +2,15 @@ use std::any::type_name;
 use std::cell::UnsafeCell;
 use std::marker::PhantomPinned;
 use std::panic::{RefUnwindSafe, UnwindSafe};
+#[cfg(not(folo_verif))]
 use std::sync::atomic::{AtomicU8, Ordering};
+#[cfg(folo_verif)]
+use std::sync::atomic::Ordering;
 use std::task::Waker;
 use std::{fmt, ptr};
+
+#[cfg(folo_verif)]
+use crate::verif::AtomicU8;
 
 // Lifecycle phase tracked by the atomic `lifecycle` field on Awaiter.
 // Using an atomic outside UnsafeCell allows the poll path to check
